@@ -188,6 +188,13 @@ def run(ctx):
                 for (m, lab) in t.succ:
                     if lab == none_lab:
                         none_edges.add((t, m, lab))
+        if p.maybe_func("_write_py:_self_contained_schema") is None:
+            # the closure helper folded into the constructor: its shortcut (nothing is referred to that the schema
+            # does not define itself) is a test on the name table; paths through it are the helper's own
+            for t in cfg.nodes:
+                if t.kind == "test" and "self._named_schemas" in norm(t.ast):
+                    for (m, lab) in t.succ:
+                        none_edges.add((t, m, lab))
         ok = bool(closing) and cfg.must_pass(cfg.entry, dn, cn, skip_edges=none_edges)
         guards_ok = True
         ctx.check("C12.R3", "the header text depends on the name table filled by the parse (separately parsed definitions reach the file)", ok and guards_ok, gw.where(dumps[0]), f"GenericWriter.__init__: json.dumps({var}) with {[norm(d)[:60] for d in defs]}", "the header is the caller's schema minus markers only: types parsed separately against a shared dictionary are named but not defined, and the file cannot be read on its own")
@@ -214,6 +221,17 @@ def run(ctx):
                     if (is_tbl or derived) and returned and g.id not in table_param:
                         table_param[g.id] = (g, pn)
                         entry_calls.append((sc, c, arg))
+    if sc is None and len(dumps) == 1 and isinstance(dumps[0].args[0], ast.Name):
+        # folded into the constructor: the calls that receive the writer's name table and produce the header schema
+        for n in walk_local(gw.node):
+            if isinstance(n, ast.Assign) and any(isinstance(t, ast.Name) and t.id == dumps[0].args[0].id for t in n.targets) and isinstance(n.value, ast.Call) and isinstance(n.value.func, ast.Name):
+                g = p.resolve_func(gw.mod, n.value.func)
+                if g is None or g.cls is not None:
+                    continue
+                for pn, arg in bind_args(g, n.value).items():
+                    if norm(arg) == "self._named_schemas" and g.id not in table_param:
+                        table_param[g.id] = (g, pn)
+                        entry_calls.append((gw, n.value, arg))
     work = [g for g, _ in table_param.values()]
     while work:
         f = work.pop()
@@ -241,8 +259,8 @@ def run(ctx):
                         from_table = True
         ctx.check("C12.R3", "a definition taken from the name table is itself processed (references inside it are inlined too)", from_table, group[0].where(), f"{names}: definition from the name table returned without recursion", "a chain Parent -> Child -> Grandchild of separately parsed pieces leaves 'Grandchild' undefined in the header")
         # the walk is given the complete name table at every step (a definition taken from it may refer to further ones)
-        for f in [sc] + group:
-            tp = sc.pos_params[1] if f is sc else table_param[f.id][1]
+        for f in [sc if sc is not None else gw] + group:
+            tp = (sc.pos_params[1] if sc is not None else "self._named_schemas") if f in (sc, gw) else table_param[f.id][1]
             for c in ast.walk(f.node):
                 if not (isinstance(c, ast.Call) and isinstance(c.func, ast.Name)):
                     continue
@@ -250,7 +268,10 @@ def run(ctx):
                 if g is None or g.id not in table_param:
                     continue
                 targ = bind_args(g, c).get(table_param[g.id][1])
-                good = isinstance(targ, ast.Name) and targ.id == tp and not any(isinstance(x, ast.Name) and x.id == tp and isinstance(x.ctx, ast.Store) for x in walk_local(f.node))
+                if f is gw:
+                    good = targ is not None and norm(targ) == tp
+                else:
+                    good = isinstance(targ, ast.Name) and targ.id == tp and not any(isinstance(x, ast.Name) and x.id == tp and isinstance(x.ctx, ast.Store) for x in walk_local(f.node))
                 ctx.check("C12.R3", f"{f.qualname}: the definitions walk receives the complete name table", good, f.where(c), f"{f.qualname}: {norm(c)[:100]}", "a definition inlined from the table can itself refer to separately parsed types: with a restricted table those stay undefined in the header")
         adds = {norm(n.value.func.value) for f in group for n in ast.walk(f.node) if isinstance(n, ast.Expr) and isinstance(n.value, ast.Call) and isinstance(n.value.func, ast.Attribute) and n.value.func.attr == "add" and isinstance(n.value.func.value, ast.Name)}
         tests = {norm(t.comparators[0]) for f in group for n in ast.walk(f.node) if isinstance(n, (ast.If, ast.IfExp)) for t in ast.walk(n.test) if isinstance(t, ast.Compare) and len(t.ops) == 1 and isinstance(t.ops[0], (ast.In, ast.NotIn))}
